@@ -1,15 +1,102 @@
 (** Property C20 — malformed input is rejected, never silently resolved.
-    Only statements, each closed by [exact]; proofs in Dialect/DialectProofs.v and Dialect/FaultProofs.v. *)
+    Only statements, each closed by [exact]; proofs in Dialect/DialectProofs.v and Dialect/FaultProofs.v.
+    Annotation faults: on the dialect model [parse_dialect] (for every float() oracle, every dialect,
+    every position of the faulty entry).  Ring faults: on the ring-table fold [ring_model]
+    (Dialect/FaultModels.v; an abstraction of the `cycle` dict of read_cgsmiles, tied to the code by the
+    per-case correspondence).  Missing fragment: on the loop model [rdm]/[resolve_step] of
+    MoleculeResolver.resolve_disconnected_molecule. *)
 From Coq Require Import String.
 From Coq Require Import List Ascii ZArith Bool.
 From CGV Require Import Base.PyBase Base.PyVal Gen.DialectGen Dialect.DialectImpl Dialect.DialectDefs
-     Dialect.FaultModels Dialect.FaultProofs.
+     Dialect.DialectProofs Dialect.DialectCheck Dialect.FaultModels Dialect.FaultProofs Dialect.FaultCheck.
 Import ListNotations.
-Open Scope Z_scope.
+Close Scope Z_scope.
 
+(** ---- annotations ---- *)
+Theorem C20_two_eq_rejected : forall fo dl s e, s <> [] -> In e (py_split s ";"%char) -> 1 < py_count e "="%char ->
+  parse_dialect fo dl s = Err (ESyntax (S "toomany_eq")).
+Proof. exact two_eq_rejected. Qed.
+Theorem C20_two_eq_rejected_at_every_position : forall fo dl es1 e es2,
+  Forall (fun x => ~ In ";"%char x) (es1 ++ e :: es2) -> 1 < py_count e "="%char ->
+  parse_dialect fo dl (join sep (es1 ++ e :: es2)) = Err (ESyntax (S "toomany_eq")).
+Proof. exact two_eq_rejected_at. Qed.
+Theorem C20_too_many_positional_rejected : forall fo dl s args kws,
+  split_annotation s = Ok (args, kws) -> length (params dl) < length args ->
+  parse_dialect fo dl s = Err (ESyntax (S "bind")).
+Proof. exact too_many_positional_rejected. Qed.
+Theorem C20_bound_twice_rejected : forall fo dl s args kws i p,
+  split_annotation s = Ok (args, kws) -> nth_error (params dl) i = Some p -> i < length args ->
+  kw_get (pname p) kws <> None -> parse_dialect fo dl s = Err (ESyntax (S "bind")).
+Proof. exact bound_twice_rejected. Qed.
+Theorem C20_non_numeric_rejected : forall fo dl s args kws bound rest p v,
+  split_annotation s = Ok (args, kws) -> bind_params (params dl) args kws = Ok (bound, rest) ->
+  accept_kwargs dl = true -> In (p, Some v) bound -> ptype p = TFloat -> fo v = None ->
+  parse_dialect fo dl s = Err EType.
+Proof. exact non_numeric_rejected. Qed.
+(** where the entries of a writing go (so that the three theorems above apply at every position of
+    the faulty entry among otherwise valid entries): the text splits into its entries ... *)
+Theorem C20_split_render : forall es,
+  Forall (fun v => clean v = true) (pos_of es) -> Forall (fun kv => clean_entry kv = true) (kws_of es) ->
+  NoDup (keys (kws_of es)) -> es <> [EPos []] ->
+  split_annotation (render_ents es) = Ok (pos_of es, kws_of es).
+Proof. exact split_render_ents. Qed.
+(** ... and every positional / keyword value is bound to its parameter *)
+Theorem C20_bound_values : forall ps args kws bound rest,
+  bind_params ps args kws = Ok (bound, rest) -> NoDup (map pname ps) ->
+  (forall i p v, nth_error ps i = Some p -> nth_error args i = Some v -> In (p, Some v) bound) /\
+  (forall p v, In p (skipn (length args) ps) -> kw_get (pname p) kws = Some v -> In (p, Some v) bound).
+Proof. exact bind_params_bound. Qed.
+
+Open Scope Z_scope.
+(** ---- ring faults (ring-table abstraction) ---- *)
+Theorem C20_dangling_rejected : forall m evs, Nat.odd (ring_count m evs) = true ->
+  ring_model evs = Err (ESyntax (S "dangling")) \/ ring_model evs = Err (ESyntax (S "double")).
+Proof. exact dangling_rejected. Qed.
+Theorem C20_duplicate_rejected : forall pre post v m u st,
+  ring_run pre rt0 = Ok st -> tbl_get m (r_tbl st) = Some u -> has_edge (r_edges st) v u = true ->
+  ring_model (pre ++ EvRing v m :: post) = Err (ESyntax (S "double")).
+Proof. exact duplicate_rejected. Qed.
+
+(** ---- missing fragment ---- *)
 Theorem C20_missing_fragment_rejected : forall (A : Type) dict edges nodes k name (later : res A),
   In (k, name) nodes -> str_in name dict = false -> real_node k edges = true ->
   resolve_step dict edges nodes later = Err (ESyntax (S "no_fragment")).
 Proof. exact (@missing_fragment_rejected). Qed.
 
+(** known finding (class coarse_fragment_nonnumeric_charge): q=abc on a coarse node inside a fragment
+    definition is accepted by the code's path (model [annot_model 2], validated on every run) *)
+Theorem C20_coarse_fragment_charge_refuted :
+  let fo := fo_of_table [(S "abc", None)] in
+  fault_present 2 6 fo (S "Y;q=abc") = true /\ coarse_fragment_charge_class 2 6 fo (S "Y;q=abc") = true /\
+  exists a, annot_model 2 fo (S "Y;q=abc") = Ok a /\ aget (S "q") a = Some (VStr (S "abc")).
+Proof. repeat split. eexists. split; vm_compute; reflexivity. Qed.
+
+(** non-vacuity *)
+Example C20_nonvacuous_annotation :
+  parse_dialect fo_demo graph_base_dialect (S "A;q=1;a=b=c") = Err (ESyntax (S "toomany_eq")) /\
+  parse_dialect fo_demo graph_base_dialect (S "A;+1;+1;+1") = Err (ESyntax (S "bind")) /\
+  parse_dialect fo_demo graph_base_dialect (S "A;+1;q=+1") = Err (ESyntax (S "bind")) /\
+  parse_dialect fo_demo graph_base_dialect (S "A;foo=bar;q=abc") = Err EType /\
+  parse_dialect fo_demo fragment_node_dialect (S "abc") = Err EType.
+Proof. exact errors_example. Qed.
+Example C20_nonvacuous_ring :
+  Nat.odd (ring_count 3 [EvNode 0 None; EvRing 0 1; EvNode 1 (Some 0); EvRing 1 3; EvNode 2 (Some 1); EvRing 2 1]) = true /\
+  ring_model [EvNode 0 None; EvRing 0 1; EvNode 1 (Some 0); EvRing 1 3; EvNode 2 (Some 1); EvRing 2 1] = Err (ESyntax (S "dangling")) /\
+  ring_model [EvNode 0 None; EvRing 0 1; EvNode 1 (Some 0); EvNode 2 (Some 1); EvRing 2 1] = Ok [(2, 0); (1, 2); (0, 1)].
+Proof. exact dangling_example. Qed.
+Example C20_nonvacuous_fragment :
+  rdm [S "A"] [(0, 1, 1)] [(0, S "A"); (1, S "B")] = Err (ESyntax (S "no_fragment")) /\
+  rdm [S "A"] [(0, 1, 0)] [(0, S "A"); (1, S "B")] = Ok tt.
+Proof. exact missing_fragment_example. Qed.
+
+Print Assumptions C20_two_eq_rejected.
+Print Assumptions C20_two_eq_rejected_at_every_position.
+Print Assumptions C20_too_many_positional_rejected.
+Print Assumptions C20_bound_twice_rejected.
+Print Assumptions C20_non_numeric_rejected.
+Print Assumptions C20_split_render.
+Print Assumptions C20_bound_values.
+Print Assumptions C20_dangling_rejected.
+Print Assumptions C20_duplicate_rejected.
 Print Assumptions C20_missing_fragment_rejected.
+Print Assumptions C20_coarse_fragment_charge_refuted.
